@@ -215,7 +215,8 @@ func (e *FnEnc) binop(op token.Token, x, y Val, resTy types.Type) string {
 		case token.GEQ:
 			return sx(">=", x.T, y.T)
 		case token.AND, token.OR, token.XOR, token.SHL, token.SHR, token.AND_NOT:
-			return e.W.UF("bits."+op.String(), []string{"Int", "Int"}, "Int", x.T, y.T)
+			names := map[token.Token]string{token.AND: "and", token.OR: "or", token.XOR: "xor", token.SHL: "shl", token.SHR: "shr", token.AND_NOT: "andnot"}
+			return e.W.UF("bits."+names[op], []string{"Int", "Int"}, "Int", x.T, y.T)
 		}
 	case isBool(ty):
 		switch op {
